@@ -9,8 +9,8 @@ EXTENDS Integers, Sequences, FiniteSets, TLC, Json, IOUtils
 
 Input == JsonDeserialize(IOEnv.TRACE_FILE)
 Traces == Input.traces
-NArgs == 4
-F == <<<<3>>, <<5>>, <<3, 5>>, <<3, 7>>>>        \* x -> 2x+1 on 1.0, 2.0, [1,2], [1,3]
+NArgs == 6
+F == <<<<3>>, <<5>>, <<3, 5>>, <<3, 7>>, <<-1>>, <<-3>>>>   \* x -> 2x+1 on 1.0, 2.0, [1,2], [1,3], -1.0, -2.0
 MaxOps == 0
 VARIABLES tid, l, ws
 U == INSTANCE HgUserFcn WITH w <- ws, applied <- {}, n <- 0, lastret <- <<>>, lastarg <- 0
